@@ -33,6 +33,9 @@ Check(t) ==
          ELSE IF t.exc3 # "" THEN <<"contains-failed(product space x1*x2, permuted columns):" \o t.exc3, "", nj>>
          ELSE IF t.bits3 # <<>> /\ (~t.shape3_ok \/ t.bits3 # t.bits) THEN <<"membership(product space x1*x2, permuted columns)", "", nj>>
          ELSE IF ~t.nv_ok THEN <<"necessary-variables", "", nj>>
+         ELSE IF t.nv_parts /\ ({t.nv_l[i] : i \in DOMAIN t.nv_l} # FreeVars(E(t).l) \ SpaceVars(E(t).l)
+                                \/ {t.nv_r[i] : i \in DOMAIN t.nv_r} # FreeVars(E(t).r) \ SpaceVars(E(t).r))
+              THEN <<"necessary-variables-of-an-operand-changed-by-the-combination", "", nj>>
          \* boundary clauses only for expressions that denote a set of positive measure on the query lattice
          ELSE IF t.bd = "none" \/ Cardinality({i \in J : t.bits[i] = 1}) < 4 THEN <<"ok", "", nj>>
          ELSE IF t.bd # "ok" THEN <<"boundary-object-failed", "", nj>>
